@@ -2,6 +2,7 @@
 harness counters become the evidence coverage block."""
 
 RT = ["vh_rt.c"]
+from . import c20 as _c20
 
 
 def _cov(rule, extra=None):
@@ -471,4 +472,30 @@ CHECKS["C17"] = dict(
         note="reference DES typed from FIPS 46-3 and validated against libgcrypt on every run; coverage of the S-box tables is derived from the reference, not observed.",
         technique="exhaustive enumeration of table-entry-covering input families and explicit-state search of API histories on the implementation against a reference model",
         ref="DESIGN.md 3/C17"),
+)
+
+
+CHECKS["C20"] = dict(
+    level="exploration",
+    jobs=lambda tier: [dict(name="c20", variant="so", script=_c20.run)],
+    coverage=_cov("complete enumeration of the finite interface: (1) every (symbol, version, default-ness) FUNC export of the released "
+                  "libcrypt.so.1 (4.4.33) must be exported identically by the freshly built versioned library; (2) sizeof/offsetof of all six "
+                  "fields of struct crypt_data and every public constant, from a probe compiled against the tree's regenerated <crypt.h> and "
+                  "against the released header, equal to each other and to the documented literals; (3) an old client compiled and linked "
+                  "against the released header and library only (all 16 methods x 6 phrases, failing settings, generators x counts x nrbytes, "
+                  "every compat symbol through dlvsym, setkey/encrypt interleaved with crypt/crypt_gensalt) run with the released and with the "
+                  "fresh library substituted through LD_LIBRARY_PATH: transcripts identical; every pair resolves through dlvsym; (4) compat "
+                  "names answer as their modern counterparts; distinct_nontrivial = distinct transcript lines",
+                  lambda s, t: dict(released_symbol_versions=int(s.get("released_symbol_versions", 0)), transcript_lines=int(s.get("transcript_lines", 0)),
+                                    layout_items=int(s.get("layout_items", 0)), alias_comparisons=int(s.get("alias_comparisons", 0)))),
+    assumptions=["the released libcrypt.so.1 and /usr/include/crypt.h of the image (libxcrypt 4.4.33) stand for 'existing binaries built against libxcrypt 4.x'",
+                 "corpus cells where the tree is repaired relative to 4.4.33 (over-long sha1crypt salts, exact-fit gensalt sizes, nrbytes==3, bcrypt stack copy) are not part of the corpus"],
+    nonvacuous=lambda s, t: None if s.get("transcript_lines", 0) > 1500 and s.get("released_symbol_versions", 0) > 20 and s.get("layout_items", 0) > 15 else "interface enumeration incomplete",
+    manifest=dict(
+        text="Complete enumeration of a finite interface space rather than a search: every exported (symbol, version) pair, every struct field "
+             "offset and public constant, and an old-binary transcript over a corpus touching every method and every compatibility symbol, "
+             "compared between the released library and the freshly built shared object.",
+        note="gcc -O2 -fPIC -DPIC build linked with the tree's generated version script; the released 4.4.33 library and header in the image are the reference.",
+        technique="exhaustive enumeration of the binary interface (symbol versions, layout, constants) and differential old-client replay against the released library",
+        ref="DESIGN.md 3/C20"),
 )
